@@ -994,6 +994,15 @@ def check_zero_tolerance(ctx: Ctx) -> None:
     saved = {dotted(r_.value) for r_ in restore}
     ok = ok and all(any(isinstance(s_, ast.Assign) and dotted(s_.targets[0]) == v_ and (dotted(s_.value) or "").endswith("cache.tolerance") and any(cfg.dominates(cfg.node_of(s_), cfg.node_of(z)) for z in zero) for s_ in stmts_of(f)) for v_ in saved)
     ctx.ob("16.6-zero-tolerance", con, ok, "the user's tolerance, read before it is zeroed, must be restored after the approximation", node=(restore or [f])[0], stmt="tolerance restored after the body")
+    # the cache whose tolerance is zeroed is the cache the discipline has NOW (`set_cache` may have replaced the one it
+    # had when the approximator was built)
+    from gv.props.shared import unfolded as _unf
+
+    for z in zero:
+        holder = z.targets[0].value  # <cache>.tolerance
+        alts = _unf(f, holder) or [holder]
+        ok_c = bool(alts) and all(norm_stmt(a_) == "self.discipline.cache" for a_ in alts)
+        ctx.ob("16.6-zero-tolerance", con, ok_c, f"the tolerance that is zeroed must be that of the discipline's current cache (`self.discipline.cache`, read when the context is entered); found `{' | '.join(norm_stmt(a_, 60) for a_ in alts)}`: a cache object captured earlier is no longer the one in use after set_cache", node=z, stmt="the current cache is the one zeroed")
     # the evaluations at perturbed points happen inside the context: every call of an approximator routine that
     # evaluates the discipline (the callee is resolved through locals: `g = self.approximator.f_gradient; g(x)`)
     from gv.dataflow import SymValues
